@@ -316,6 +316,22 @@ class LoopFacts:
       index  - names bound to the 0-based index of enumerate(X)
       seq    - text of the iterated sequence X (for `index == len(X) - 1`)"""
 
+    @classmethod
+    def of_comprehension(cls, comp: ast.comprehension) -> "LoopFacts":
+        """Facts of `for i, x in enumerate(X)` inside a comprehension (an index is all a comprehension can offer)."""
+        self = cls.__new__(cls)
+        self.head = None
+        self.flags, self.latches, self.index, self.seq, self.seq_forms = {}, {}, set(), None, set()
+        it = comp.iter
+        if isinstance(it, ast.Call) and isinstance(it.func, ast.Name) and it.func.id == "enumerate" and it.args \
+                and isinstance(comp.target, ast.Tuple) and comp.target.elts and isinstance(comp.target.elts[0], ast.Name):
+            start = it.args[1] if len(it.args) > 1 else next((k.value for k in it.keywords if k.arg == "start"), None)
+            if start is None or (isinstance(start, ast.Constant) and start.value == 0):
+                self.index.add(comp.target.elts[0].id)
+                self.seq = ast.unparse(it.args[0])
+                self.seq_forms = {self.seq}
+        return self
+
     def __init__(self, prog: Program, fi: FuncInfo, head: Node) -> None:
         flow = prog.flow(fi)
         self.head = head
